@@ -15,7 +15,8 @@
    C27_any_rounding states the same conclusions for ANY pair of rounding
    functions (ibcr, share) and is closed under the global context. *)
 From Coq Require Import ZArith Bool List.
-From ELA Require Import lib.GoFloat model.C27_Reward proof.C27_Reward.
+From Coq Require Import QArith Lqa.
+From ELA Require Import lib.GoFloat model.C27_Reward proof.C27_Reward proof.C27_Rounding.
 From ELA Require corr.C27_corr.
 Import ListNotations.
 Local Open Scope Z_scope.
@@ -73,6 +74,52 @@ Theorem C27_any_rounding : forall (ibcr : Z) (share : Z -> Z) s v reward m chang
   paid ibcr share s v reward <= credited ibcr share s v reward.
 Proof. exact guard_ok. Qed.
 Print Assumptions C27_any_rounding.
+
+(* Structural form: instead of the computed side condition, hypotheses on the
+   inputs (reward, vote range, no panic path, sizes) and three facts about the
+   two rounding functions: 0 <= ibcr <= B1, 0 <= share x <= B2 on [0, T]. *)
+Theorem C27_structural_any_rounding : forall (ibcr : Z) (share : Z -> Z) s v reward T B1 B2 m change,
+  0 <= reward <= max_int64 -> 0 <= T -> 0 <= ibcr <= B1 ->
+  (forall x, 0 <= x <= T -> 0 <= share x <= B2) ->
+  (forall k x, In (k, x) (s_votes s) -> 0 <= x <= T) ->
+  (forall a, In a (s_arbs s) -> exact_of ibcr share s v a <> None) ->
+  (Z.of_nat (length (s_arbs s)) + Z.of_nat (n_extra s v)) * B1 +
+  (Z.of_nat (length (s_arbs s)) + Z.of_nat (length (s_cands s))) * B2 <= max_int64 ->
+  guard reward (dist_version ibcr share s v reward) = ROk m change ->
+  0 <= change /\
+  paid ibcr share s v reward = reward - change /\
+  0 <= paid ibcr share s v reward /\
+  (forall k x, In (k, x) m -> 0 <= x) /\
+  sum_map m <= credited ibcr share s v reward.
+Proof. exact structural_ok. Qed.
+Print Assumptions C27_structural_any_rounding.
+
+(* ... and those three facts are PROVED for the expressions the code
+   evaluates, Floor(R(R(R r * 1/4) / R n)) and Floor(R(R x * R(R(R r - R(R r * 1/4)) / R T))),
+   for every rounding function R on the rationals that is monotone, fixes 0
+   and stays within a factor 2 of its argument (binary64 round-to-nearest below
+   overflow is such an R).  So: reward >= 0, total votes > 0, every vote in
+   [0, total], arbiter count > 0, no panic path, sizes fit  ==>  paid = reward -
+   change >= 0, change >= 0, no negative payout.  What is left untested-vs-proved:
+   that Coq's primitive float operations are "exact operation, then such an R". *)
+Theorem C27_abstract_rounding : forall (R : Q -> Q),
+  (forall a b, (a <= b)%Q -> (R a <= R b)%Q) -> (R 0 == 0)%Q ->
+  (forall a, (0 <= a)%Q -> (R a <= 2 * a)%Q) -> (forall a, (0 <= a)%Q -> (a <= 2 * R a)%Q) ->
+  forall s v reward m change,
+  0 <= reward <= max_int64 -> 0 < s_total s -> 0 < count_of s v ->
+  (forall k x, In (k, x) (s_votes s) -> 0 <= x <= s_total s) ->
+  (forall a, In a (s_arbs s) -> exact_of 0 (fun _ => 0) s v a <> None) ->
+  (Z.of_nat (length (s_arbs s)) + Z.of_nat (n_extra s v)) * (4 * reward) +
+  (Z.of_nat (length (s_arbs s)) + Z.of_nat (length (s_cands s))) * (64 * reward) <= max_int64 ->
+  guard reward (dist_version (ibcr_abs R reward (count_of s v)) (share_abs R reward (s_total s)) s v reward)
+    = ROk m change ->
+  0 <= change /\
+  paid (ibcr_abs R reward (count_of s v)) (share_abs R reward (s_total s)) s v reward = reward - change /\
+  0 <= paid (ibcr_abs R reward (count_of s v)) (share_abs R reward (s_total s)) s v reward /\
+  (forall k x, In (k, x) m -> 0 <= x) /\
+  sum_map m <= credited (ibcr_abs R reward (count_of s v)) (share_abs R reward (s_total s)) s v reward.
+Proof. exact abs_rounding_ok. Qed.
+Print Assumptions C27_abstract_rounding.
 
 (* ---- non-vacuity and witnesses (vm_compute) *)
 
@@ -138,3 +185,22 @@ Example C27_sane_sweep :
                     [(3, t); (4, t / 2); (5, t / 3); (6, Z.min t 1); (7, 0)] t 3) v r)
      [V0; V1; V2; V3]) grid_totals) grid_rewards = true.
 Proof. vm_compute. reflexivity. Qed.
+
+(* non-vacuity of C27_abstract_rounding: exact arithmetic (R = identity) is an
+   admissible rounding; on the example round the hypotheses hold and the
+   distribution succeeds. *)
+Example C27_abstract_rounding_nonvacuous :
+  let R := fun q : Q => q in
+  ((forall a b, (a <= b)%Q -> (R a <= R b)%Q) /\ (R 0 == 0)%Q /\
+   (forall a, (0 <= a)%Q -> (R a <= 2 * a)%Q) /\ (forall a, (0 <= a)%Q -> (a <= 2 * R a)%Q)) /\
+  (Z.of_nat (length (s_arbs ex_round)) + Z.of_nat (n_extra ex_round V3)) * (4 * 1000000) +
+  (Z.of_nat (length (s_arbs ex_round)) + Z.of_nat (length (s_cands ex_round))) * (64 * 1000000) <= max_int64 /\
+  guard 1000000 (dist_version (ibcr_abs R 1000000 (count_of ex_round V3)) (share_abs R 1000000 (s_total ex_round))
+                              ex_round V3 1000000)
+    = ROk [(3, 458333); (4, 308333); (5, 158333); (6, 52500); (7, 22500)] 1.
+Proof.
+  cbv zeta. split; [| split].
+  - repeat split; intros; lra.
+  - vm_compute. discriminate.
+  - vm_compute. reflexivity.
+Qed.
